@@ -200,8 +200,12 @@ Definition conn_scenario (ints : list N) (bs : list bytes) : list N :=
                            (fun k => nth k hs None) writes in
           let evs := read_stream stream (negb (eof =? 0)) in
           (* the harness always closes the server at the end: a final stop request *)
+          (* stop_after: k < 9998 = stop request after k reader events; 9999 = only the final
+             stop when the harness closes the server; 9998 = no stop at all (the connection must
+             end by itself; another connection follows) *)
           let ins := map IRd (firstn (N.to_nat stop_after) evs)
-                     ++ (if stop_after <? 9999 then [IStop] else map IRd (skipn (N.to_nat stop_after) evs) ++ [IStop]) in
+                     ++ (if stop_after <? 9998 then [IStop]
+                         else map IRd (skipn (N.to_nat stop_after) evs) ++ (if stop_after =? 9998 then [] else [IStop])) in
           let first := send_open cf lid caps in
           match first with
           | AWrite _ :: _ =>
